@@ -1,9 +1,548 @@
 package main
 
+// Mechanical fragment extraction (DESIGN §4.8): a region of a large function
+// (a case body / if branch of the interpreter loop) is copied byte for byte
+// into a generated function whose parameters are the region's free variables.
+// The only rewrites are of exits: `return a, b` becomes `return false, a, b`
+// and a `continue`/`break` to a label outside the region, or falling off the
+// end, becomes `return true, <zero results>`.  The generated file is handed to
+// the loader through packages.Config.Overlay on every run; it is never
+// written to /repo.
+
+import (
+	"bytes"
+	"fmt"
+	"go/ast"
+	"go/printer"
+	"go/token"
+	"go/types"
+	"os"
+	"path/filepath"
+	"sort"
+	"strings"
+
+	"golang.org/x/tools/go/packages"
+)
+
+type fragInfo struct {
+	Name    string
+	File    string
+	From    int
+	To      int
+	Params  []string
+	Rewrite int
+	Err     string
+}
+
+var fragReport = map[string]*fragInfo{}
+
 func fragOverlay(repo string, all []*Contract, pkgs []string) map[string][]byte {
 	return fragOverlayWith(repo, all, pkgs, nil)
 }
 
+func nodeText(fset *token.FileSet, n ast.Node) string {
+	var b bytes.Buffer
+	printer.Fprint(&b, fset, n)
+	return strings.Join(strings.Fields(b.String()), " ")
+}
+
+// selectRegion resolves a selector like
+//   switch opcode.TypePfx()/case code.Type7Pfx/if opcode.GetF()/then
+// inside fd and returns the selected statement list.
+func selectRegion(fset *token.FileSet, fd *ast.FuncDecl, sel string) ([]ast.Stmt, error) {
+	var cur ast.Node = fd.Body
+	parts := strings.Split(sel, "/")
+	for pi, part := range parts {
+		part = strings.TrimSpace(part)
+		kind, arg := part, ""
+		if i := strings.Index(part, " "); i > 0 {
+			kind, arg = part[:i], strings.Join(strings.Fields(part[i+1:]), " ")
+		}
+		var found ast.Node
+		if strings.HasPrefix(kind, "if#") && arg == "" {
+			// N-th if statement among the direct statements of the current block
+			n := 0
+			fmt.Sscanf(kind[3:], "%d", &n)
+			var list []ast.Stmt
+			switch x := cur.(type) {
+			case *ast.BlockStmt:
+				list = x.List
+			case *ast.CaseClause:
+				list = x.Body
+			case *ast.ForStmt:
+				list = x.Body.List
+			}
+			k := 0
+			for _, st := range list {
+				if is, ok := st.(*ast.IfStmt); ok {
+					k++
+					if k == n {
+						found = is
+					}
+				}
+			}
+			if found == nil {
+				return nil, fmt.Errorf("selector element %q not found", part)
+			}
+			cur = found
+			continue
+		}
+		switch kind {
+		case "switch":
+			ast.Inspect(cur, func(n ast.Node) bool {
+				if found != nil {
+					return false
+				}
+				if sw, ok := n.(*ast.SwitchStmt); ok && sw.Tag != nil && nodeText(fset, sw.Tag) == arg {
+					found = sw
+					return false
+				}
+				return true
+			})
+		case "case":
+			sw, ok := cur.(*ast.SwitchStmt)
+			if !ok {
+				return nil, fmt.Errorf("selector element %d: case outside switch", pi)
+			}
+			for _, st := range sw.Body.List {
+				cc := st.(*ast.CaseClause)
+				for _, e := range cc.List {
+					if nodeText(fset, e) == arg {
+						found = cc
+					}
+				}
+				if arg == "default" && cc.List == nil {
+					found = cc
+				}
+			}
+		case "if":
+			ast.Inspect(cur, func(n ast.Node) bool {
+				if found != nil {
+					return false
+				}
+				if is, ok := n.(*ast.IfStmt); ok && nodeText(fset, is.Cond) == arg {
+					found = is
+					return false
+				}
+				return true
+			})
+		case "then":
+			if is, ok := cur.(*ast.IfStmt); ok {
+				found = is.Body
+			}
+		case "else":
+			if is, ok := cur.(*ast.IfStmt); ok && is.Else != nil {
+				found = is.Else
+			}
+		case "for":
+			ast.Inspect(cur, func(n ast.Node) bool {
+				if found != nil {
+					return false
+				}
+				if ls, ok := n.(*ast.LabeledStmt); ok && ls.Label.Name == arg {
+					found = ls.Stmt
+					return false
+				}
+				return true
+			})
+		default:
+			return nil, fmt.Errorf("unknown selector element %q", part)
+		}
+		if found == nil {
+			return nil, fmt.Errorf("selector element %q not found", part)
+		}
+		cur = found
+	}
+	switch x := cur.(type) {
+	case *ast.BlockStmt:
+		return x.List, nil
+	case *ast.CaseClause:
+		return x.Body, nil
+	case *ast.ForStmt:
+		return x.Body.List, nil
+	}
+	return nil, fmt.Errorf("selector does not end at a block")
+}
+
+func findFuncDecl(pkg *packages.Package, key string) (*ast.FuncDecl, *ast.File) {
+	recv, name := "", key
+	if strings.HasPrefix(key, "(") {
+		i := strings.Index(key, ")")
+		recv, name = key[1:i], key[i+2:]
+	}
+	for _, f := range pkg.Syntax {
+		for _, d := range f.Decls {
+			fd, ok := d.(*ast.FuncDecl)
+			if !ok || fd.Name.Name != name || fd.Body == nil {
+				continue
+			}
+			if recv == "" && fd.Recv == nil {
+				return fd, f
+			}
+			if recv != "" && fd.Recv != nil && len(fd.Recv.List) == 1 {
+				if nodeText(pkg.Fset, fd.Recv.List[0].Type) == recv {
+					return fd, f
+				}
+			}
+		}
+	}
+	return nil, nil
+}
+
 func fragOverlayWith(repo string, all []*Contract, pkgs []string, base map[string][]byte) map[string][]byte {
-	return base
+	byPkg := map[string][]*Contract{}
+	for _, ct := range all {
+		if !ct.IsFrag {
+			continue
+		}
+		want := len(pkgs) == 0
+		for _, p := range pkgs {
+			if p == ct.PkgPath || strings.HasSuffix(p, "/...") {
+				want = true
+			}
+		}
+		if want {
+			byPkg[ct.PkgPath] = append(byPkg[ct.PkgPath], ct)
+		}
+	}
+	if len(byPkg) == 0 {
+		return base
+	}
+	out := map[string][]byte{}
+	for k, v := range base {
+		out[k] = v
+	}
+	var paths []string
+	for p := range byPkg {
+		paths = append(paths, p)
+	}
+	sort.Strings(paths)
+	cfg := &packages.Config{Mode: packages.LoadAllSyntax, Dir: repo, BuildFlags: []string{"-tags=verif"}, Overlay: base,
+		Env: append(os.Environ(), "GOFLAGS=-mod=mod", "GOPROXY=off", "GOSUMDB=off", "GOTOOLCHAIN=local")}
+	loaded, err := packages.Load(cfg, paths...)
+	if err != nil {
+		for _, cts := range byPkg {
+			for _, ct := range cts {
+				fragReport[ct.PkgPath+"."+ct.Key] = &fragInfo{Name: ct.Key, Err: err.Error()}
+			}
+		}
+		return out
+	}
+	for _, pkg := range loaded {
+		cts := byPkg[pkg.PkgPath]
+		if len(cts) == 0 || len(pkg.Errors) > 0 {
+			for _, ct := range cts {
+				fragReport[ct.PkgPath+"."+ct.Key] = &fragInfo{Name: ct.Key, Err: fmt.Sprint(pkg.Errors)}
+			}
+			continue
+		}
+		var funcs []string
+		imports := map[string]string{} // path -> local name
+		for _, ct := range cts {
+			fi := &fragInfo{Name: ct.Key}
+			fragReport[ct.PkgPath+"."+ct.Key] = fi
+			src, imps, err := extractFragment(pkg, ct, fi, out)
+			if err != nil {
+				fi.Err = err.Error()
+				continue
+			}
+			funcs = append(funcs, src)
+			for k, v := range imps {
+				imports[k] = v
+			}
+		}
+		if len(funcs) == 0 {
+			continue
+		}
+		var b strings.Builder
+		b.WriteString("//go:build verif\n// +build verif\n\n// Code generated by govc (fragment extraction); never written to the repository.\n\npackage " + pkg.Name + "\n\n")
+		var ips []string
+		for p := range imports {
+			ips = append(ips, p)
+		}
+		sort.Strings(ips)
+		if len(ips) > 0 {
+			b.WriteString("import (\n")
+			for _, p := range ips {
+				fmt.Fprintf(&b, "\t%s %q\n", imports[p], p)
+			}
+			b.WriteString(")\n\n")
+		}
+		b.WriteString(strings.Join(funcs, "\n"))
+		dir := filepath.Dir(pkg.GoFiles[0])
+		out[filepath.Join(dir, "zz_verif_fragments.go")] = []byte(b.String())
+	}
+	return out
+}
+
+func extractFragment(pkg *packages.Package, ct *Contract, fi *fragInfo, overlay map[string][]byte) (string, map[string]string, error) {
+	fd, file := findFuncDecl(pkg, ct.FragOf)
+	if fd == nil {
+		return "", nil, fmt.Errorf("enclosing function %s not found", ct.FragOf)
+	}
+	fset := pkg.Fset
+	stmts, err := selectRegion(fset, fd, ct.FragSel)
+	if err != nil {
+		return "", nil, err
+	}
+	if len(stmts) == 0 {
+		return "", nil, fmt.Errorf("selected region is empty")
+	}
+	from, to := stmts[0].Pos(), stmts[len(stmts)-1].End()
+	fname := fset.Position(from).Filename
+	var srcBytes []byte
+	if ob, ok := overlay[fname]; ok {
+		srcBytes = ob
+	} else {
+		srcBytes, err = os.ReadFile(fname)
+		if err != nil {
+			return "", nil, err
+		}
+	}
+	fi.File, fi.From, fi.To = fname, fset.Position(from).Line, fset.Position(to).Line
+	info := pkg.TypesInfo
+	// local import names of the file
+	localName := map[string]string{}
+	for _, is := range file.Imports {
+		p := strings.Trim(is.Path.Value, "\"")
+		if is.Name != nil {
+			localName[p] = is.Name.Name
+		}
+	}
+	usedImports := map[string]string{}
+	qual := func(p *types.Package) string {
+		if p == pkg.Types {
+			return ""
+		}
+		n := p.Name()
+		if ln, ok := localName[p.Path()]; ok {
+			n = ln
+		}
+		usedImports[p.Path()] = n
+		return n
+	}
+	// free variables
+	type fv struct {
+		obj   *types.Var
+		first token.Pos
+	}
+	frees := map[*types.Var]*fv{}
+	var assignedFree []string
+	inRegion := func(p token.Pos) bool { return p >= from && p < to }
+	for _, st := range stmts {
+		ast.Inspect(st, func(n ast.Node) bool {
+			switch x := n.(type) {
+			case *ast.Ident:
+				obj := info.Uses[x]
+				if pn, ok := obj.(*types.PkgName); ok {
+					usedImports[pn.Imported().Path()] = pn.Name()
+				}
+				v, ok := obj.(*types.Var)
+				if !ok || v.IsField() {
+					return true
+				}
+				if v.Pos() >= fd.Pos() && v.Pos() < fd.End() && !inRegion(v.Pos()) {
+					if _, ok := frees[v]; !ok {
+						frees[v] = &fv{v, x.Pos()}
+					}
+				}
+			case *ast.AssignStmt:
+				for _, l := range x.Lhs {
+					if id, ok := l.(*ast.Ident); ok {
+						if v, ok := info.Uses[id].(*types.Var); ok && !v.IsField() && v.Pos() >= fd.Pos() && v.Pos() < fd.End() && !inRegion(v.Pos()) {
+							assignedFree = append(assignedFree, id.Name)
+						}
+					}
+				}
+			case *ast.IncDecStmt:
+				if id, ok := x.X.(*ast.Ident); ok {
+					if v, ok := info.Uses[id].(*types.Var); ok && !v.IsField() && v.Pos() >= fd.Pos() && v.Pos() < fd.End() && !inRegion(v.Pos()) {
+						assignedFree = append(assignedFree, id.Name)
+					}
+				}
+			case *ast.UnaryExpr:
+				if x.Op == token.AND {
+					if id, ok := x.X.(*ast.Ident); ok {
+						if v, ok := info.Uses[id].(*types.Var); ok && !v.IsField() && v.Pos() >= fd.Pos() && v.Pos() < fd.End() && !inRegion(v.Pos()) {
+							assignedFree = append(assignedFree, id.Name)
+						}
+					}
+				}
+			}
+			return true
+		})
+	}
+	var fl []*fv
+	for _, f := range frees {
+		fl = append(fl, f)
+	}
+	sort.Slice(fl, func(i, j int) bool { return fl[i].obj.Pos() < fl[j].obj.Pos() })
+	// free variables assigned in the region are passed by pointer-free copy:
+	// their final value is returned to the contract as extra results.
+	assigned := map[string]bool{}
+	for _, a := range assignedFree {
+		assigned[a] = true
+	}
+	var params, outNames, outTypes []string
+	for _, f := range fl {
+		params = append(params, fmt.Sprintf("%s %s", f.obj.Name(), types.TypeString(f.obj.Type(), qual)))
+		fi.Params = append(fi.Params, f.obj.Name())
+		if assigned[f.obj.Name()] {
+			outNames = append(outNames, f.obj.Name())
+			outTypes = append(outTypes, types.TypeString(f.obj.Type(), qual))
+		}
+	}
+	// result types of the enclosing function
+	var resTypes []string
+	if fd.Type.Results != nil {
+		for _, r := range fd.Type.Results.List {
+			t := types.TypeString(info.TypeOf(r.Type), qual)
+			n := len(r.Names)
+			if n == 0 {
+				n = 1
+			}
+			for i := 0; i < n; i++ {
+				resTypes = append(resTypes, t)
+			}
+		}
+	}
+	zeroRes := ""
+	for _, t := range resTypes {
+		zeroRes += ", *new(" + t + ")"
+	}
+	outs := ""
+	for _, n := range outNames {
+		outs += ", " + n
+	}
+	// exit rewrites (byte edits, applied back to front)
+	var edits []editT
+	off := func(p token.Pos) int { return fset.Position(p).Offset }
+	labelsInside := map[string]bool{}
+	for _, st := range stmts {
+		ast.Inspect(st, func(n ast.Node) bool {
+			if ls, ok := n.(*ast.LabeledStmt); ok {
+				labelsInside[ls.Label.Name] = true
+			}
+			return true
+		})
+	}
+	var walk func(n ast.Node, loopDepth int, inFuncLit bool)
+	walk = func(n ast.Node, loopDepth int, inFuncLit bool) {
+		ast.Inspect(n, func(m ast.Node) bool {
+			if m == nil || m == n {
+				return true
+			}
+			switch x := m.(type) {
+			case *ast.FuncLit:
+				return false // returns inside closures are their own
+			case *ast.ForStmt:
+				walk(x.Body, loopDepth+1, inFuncLit)
+				return false
+			case *ast.RangeStmt:
+				walk(x.Body, loopDepth+1, inFuncLit)
+				return false
+			case *ast.SwitchStmt, *ast.TypeSwitchStmt, *ast.SelectStmt:
+				// a bare break inside a switch leaves the switch: keep
+				var body *ast.BlockStmt
+				switch y := x.(type) {
+				case *ast.SwitchStmt:
+					body = y.Body
+				case *ast.TypeSwitchStmt:
+					body = y.Body
+				case *ast.SelectStmt:
+					body = y.Body
+				}
+				walkSwitch(body, loopDepth, &edits, off, labelsInside, zeroRes, outs, walk)
+				return false
+			case *ast.ReturnStmt:
+				if len(x.Results) == 0 {
+					edits = append(edits, editT{off(x.Pos()), off(x.End()), "return false" + zeroRes + outs})
+				} else {
+					edits = append(edits, editT{off(x.Pos()), off(x.Pos()) + len("return"), "return false,"})
+					if outs != "" {
+						edits = append(edits, editT{off(x.End()), off(x.End()), outs})
+					}
+				}
+			case *ast.BranchStmt:
+				if x.Tok == token.GOTO || x.Tok == token.FALLTHROUGH {
+					return true
+				}
+				if x.Label != nil && !labelsInside[x.Label.Name] {
+					edits = append(edits, editT{off(x.Pos()), off(x.End()), "return true" + zeroRes + outs})
+				} else if x.Label == nil && loopDepth == 0 {
+					edits = append(edits, editT{off(x.Pos()), off(x.End()), "return true" + zeroRes + outs})
+				}
+			}
+			return true
+		})
+	}
+	for _, st := range stmts {
+		// wrap so that the statement itself is inspected
+		walk(&ast.BlockStmt{List: []ast.Stmt{st}}, 0, false)
+	}
+	sort.Slice(edits, func(i, j int) bool { return edits[i].from > edits[j].from })
+	body := append([]byte(nil), srcBytes[off(from):off(to)]...)
+	base := off(from)
+	for _, e := range edits {
+		if e.from < base || e.to > off(to) {
+			continue
+		}
+		nb := append([]byte(nil), body[:e.from-base]...)
+		nb = append(nb, []byte(e.text)...)
+		nb = append(nb, body[e.to-base:]...)
+		body = nb
+	}
+	fi.Rewrite = len(edits)
+	var b strings.Builder
+	resDecl := "fragNext bool"
+	for i, t := range resTypes {
+		resDecl += fmt.Sprintf(", fragRes%d %s", i, t)
+	}
+	for i, t := range outTypes {
+		resDecl += fmt.Sprintf(", fragOut_%s %s", outNames[i], t)
+	}
+	fmt.Fprintf(&b, "// fragment %s of %s at %s (%s:%d-%d)\n", ct.Key, ct.FragOf, ct.FragSel, filepath.Base(fname), fi.From, fi.To)
+	fmt.Fprintf(&b, "func %s(%s) (%s) {\n", fragFuncName(ct.Key), strings.Join(params, ", "), resDecl)
+	b.WriteString("\t{ // region copied verbatim\n")
+	b.Write(body)
+	fmt.Fprintf(&b, "\n\t}\n\treturn true%s%s\n}\n", zeroRes, outs)
+	return b.String(), usedImports, nil
+}
+
+type editT = struct {
+	from, to int
+	text     string
+}
+
+func walkSwitch(body *ast.BlockStmt, loopDepth int, edits *[]editT, off func(token.Pos) int, labelsInside map[string]bool, zeroRes, outs string, walk func(ast.Node, int, bool)) {
+	// inside a switch a bare `break` leaves the switch (kept), but `continue`
+	// still refers to the enclosing loop
+	ast.Inspect(body, func(m ast.Node) bool {
+		switch x := m.(type) {
+		case *ast.FuncLit:
+			return false
+		case *ast.ForStmt:
+			walk(x.Body, loopDepth+1, false)
+			return false
+		case *ast.RangeStmt:
+			walk(x.Body, loopDepth+1, false)
+			return false
+		case *ast.ReturnStmt:
+			if len(x.Results) == 0 {
+				*edits = append(*edits, editT{off(x.Pos()), off(x.End()), "return false" + zeroRes + outs})
+			} else {
+				*edits = append(*edits, editT{off(x.Pos()), off(x.Pos()) + len("return"), "return false,"})
+				if outs != "" {
+					*edits = append(*edits, editT{off(x.End()), off(x.End()), outs})
+				}
+			}
+		case *ast.BranchStmt:
+			if x.Label != nil && !labelsInside[x.Label.Name] && (x.Tok == token.CONTINUE || x.Tok == token.BREAK) {
+				*edits = append(*edits, editT{off(x.Pos()), off(x.End()), "return true" + zeroRes + outs})
+			} else if x.Label == nil && x.Tok == token.CONTINUE && loopDepth == 0 {
+				*edits = append(*edits, editT{off(x.Pos()), off(x.End()), "return true" + zeroRes + outs})
+			}
+		}
+		return true
+	})
 }
